@@ -93,6 +93,23 @@ func genCase(t *rapid.T) Case {
 				break
 			}
 		}
+		if gen.UniformIndex(t, 3, "responsedefaults") == 0 && len(info.Ops) >= 2 {
+			// several operations answer with the same status code and a schema of their own whose default is right
+			// for some and wrong for others; operations that can do without parameters may lose them all: what the
+			// traversal of one response leaves behind must not decide whether the next one is looked at
+			for _, oi := range info.Ops {
+				op := doc["paths"].(map[string]any)[oi.Path].(map[string]any)[oi.Method].(map[string]any)
+				var dflt any = gen.Number(3)
+				if rapid.Bool().Draw(t, "baddefault") {
+					dflt = "not a number"
+				}
+				op["responses"].(map[string]any)["200"] = map[string]any{"description": "with a default", "schema": map[string]any{"type": "integer", "default": dflt}}
+				if len(info.Placeholders[oi.Path]) == 0 && rapid.Bool().Draw(t, "bareoperation") {
+					delete(op, "parameters")
+				}
+			}
+			c.Edits = append(c.Edits, "response-defaults")
+		}
 		if rapid.Bool().Draw(t, "unusedthings") {
 			// warnings: an unused definition / parameter / response
 			defs, _ := doc["definitions"].(map[string]any)
